@@ -429,20 +429,6 @@ class Aliases(cabc.MutableMapping):
         decorators = decorators if decorators is not None else []
         # Beware of mutability: default values for keyword args are evaluated
         # only once.
-        if (
-            isinstance(value, cabc.Iterable)
-            and hasattr(value, "__len__")
-            and len(value) > 1
-        ):
-            i = 0
-            for v in value:
-                if isinstance(mod := self._raw.get(str(v)), DecoratorAlias):
-                    decorators.append(mod)
-                    i += 1
-                else:
-                    break
-            value = value[i:]
-
         if callable(value) and getattr(value, "return_what", "result") == "command":
             alias_repr = repr(getattr(value, "__name__", value))
             # ``kwarg_env`` is a live overlay: while the alias body runs,
@@ -463,6 +449,20 @@ class Aliases(cabc.MutableMapping):
             )
             if env_out is not None and returned_env:
                 env_out.update(returned_env)
+
+        if (
+            isinstance(value, cabc.Iterable)
+            and hasattr(value, "__len__")
+            and len(value) > 1
+        ):
+            i = 0
+            for v in value:
+                if isinstance(mod := self._raw.get(str(v)), DecoratorAlias):
+                    decorators.append(mod)
+                    i += 1
+                else:
+                    break
+            value = value[i:]
 
         if callable(value):
             return [value] + list(acc_args)
